@@ -33,7 +33,7 @@ json generate(uint64_t seed, uint64_t idx, int tier)
 	json schema = gen_schema(r, sg);
 	strip_defaults_of_callback_options(schema["opts"]);
 	plan["schemas"] = json::array({schema});
-	int flags = (r.chance(1, 8) ? F_NOCASE : 0);
+	int flags = (r.chance(1, 8) ? F_NOCASE : 0) | (r.chance(1, 2) ? F_COMMENTS : 0);
 	json steps = json::array();
 	json init = step(0, "init", 0);
 	init["flags"] = flags;
@@ -92,6 +92,19 @@ json generate(uint64_t seed, uint64_t idx, int tier)
 		};
 		move(schema["opts"], "", false);
 		plan["schemas"] = json::array({schema});
+		if (!registered.empty() && r.chance(1, 2)) {
+			// section instances exist before the validators are registered: registration by path through a multi
+			// section concerns the instances created afterwards, through a single section the existing one
+			TextGen tg0;
+			tg0.max_items = 4;
+			tg0.ctx_flags = flags;
+			tg0.comments = 0;
+			tg0.unique_titles = true;
+			json p0 = step(0, "parse", 0);
+			p0["src"] = {{"kind", "buf"}, {"chunks", chunks_to_json(gen_text(r, schema["opts"], tg0))}};
+			p0["keep"] = 1;
+			steps.push_back(p0);
+		}
 		for (auto &pth : registered) {
 			json sv = step(0, "setvalidate", 0);
 			sv["name"] = pth;
